@@ -1,10 +1,22 @@
 import Driver.Util
 
-/-! Placeholder: the line-protocol driver of domain C10 is not written yet. -/
+/-! Line-protocol driver of domain C10.  The prediction for `race STRUCT FIELD` is the kernel-checked
+    classification itself: /verif/check passes the (struct.field) pairs for which
+    `Hv.Lockset.racyPairs Generated.factsC10.table` is non-empty as `racy=…`. -/
 namespace Driver.C10
 
-def run (_args : List String) : IO UInt32 := do
-  IO.eprintln "drv: domain C10 has no driver yet"
-  return 2
+def step (racy : List String) (_ : Unit) (line : String) : Unit × String :=
+  match words line with
+  | ["case", _, _] => ((), line)
+  | ["race", s, f] =>
+    if racy.contains (s ++ "." ++ f) then ((), s!"race {s} {f} detected\t#F:C10-race-{s}-{f}")
+    else ((), s!"race {s} {f} clean")
+  | _ => ((), "bad-op")
+
+def run (args : List String) : IO UInt32 := do
+  let kv := parseArgs args
+  let racy := (arg kv "racy").splitOn ","
+  lineLoop (step racy) ()
+  return 0
 
 end Driver.C10
